@@ -1,4 +1,4 @@
-(* GraphGenRegular.v -- bipartite_random_regular (GraphGen.v gg_random_regular): regular on both sides whenever it
+(* GraphGenRegular.v -- bipartite_random_regular (GraphGen.v gg_random_regular_gen): regular on both sides whenever it
    returns with l*d edges (always so in the repaired variant). *)
 From Coq Require Import ZArith List Bool Lia ZifyBool Permutation Arith.
 From Cnfgen Require Import Comb GText GraphIO GraphIOFacts GraphGen GraphGenFacts.
@@ -280,13 +280,13 @@ Proof.
 Qed.
 
 Theorem random_regular_degrees : forall repair restarts l r d s G s',
-  gg_random_regular repair restarts l r d s = GGOk (G, s') -> (repair = true \/ gg_nedges G = l * d) ->
+  gg_random_regular_gen repair restarts l r d s = GGOk (G, s') -> (repair = true \/ gg_nedges G = l * d) ->
   io_kind G = GioBipartite /\
   (forall u, 1 <= u <= l -> Z.of_nat (length (gio_succs G u)) = d) /\
   (forall v, 1 <= v <= r -> Z.of_nat (length (gio_preds G v)) = l * d / r) /\
   gg_nedges G = l * d.
 Proof.
-  intros repair restarts l r d s G s' H Hc. unfold gg_random_regular in H.
+  intros repair restarts l r d s G s' H Hc. unfold gg_random_regular_gen in H.
   destruct ((l <? 0) || (r <? 0) || (d <? 0)) eqn:E; [discriminate|].
   destruct (r =? 0) eqn:Er; [discriminate|].
   destruct ((l * d) mod r =? 0) eqn:Em; [|discriminate]. cbn [negb] in H.
@@ -294,14 +294,14 @@ Proof.
 Qed.
 
 Lemma random_regular_spec_degrees : forall restarts l r d s G s',
-  gg_random_regular_spec restarts l r d s = GGOk (G, s') ->
+  gg_random_regular restarts l r d s = GGOk (G, s') ->
   io_kind G = GioBipartite /\
   (forall u, 1 <= u <= l -> Z.of_nat (length (gio_succs G u)) = d) /\
   (forall v, 1 <= v <= r -> Z.of_nat (length (gio_preds G v)) = l * d / r) /\
   gg_nedges G = l * d.
 Proof. intros restarts l r d s G s' H. exact (random_regular_degrees true restarts l r d s G s' H (or_introl eq_refl)). Qed.
 Lemma random_regular_as_is_partial : forall restarts l r d s G s',
-  gg_random_regular_as_is restarts l r d s = GGOk (G, s') -> gg_nedges G = l * d ->
+  gg_random_regular_as_found restarts l r d s = GGOk (G, s') -> gg_nedges G = l * d ->
   io_kind G = GioBipartite /\
   (forall u, 1 <= u <= l -> Z.of_nat (length (gio_succs G u)) = d) /\
   (forall v, 1 <= v <= r -> Z.of_nat (length (gio_preds G v)) = l * d / r) /\
@@ -311,7 +311,7 @@ Proof. intros restarts l r d s G s' H Hm. exact (random_regular_degrees false re
 (* the code as it is returns a graph that is not regular: position 1 runs out of retries on the present edge (1,1)
    although (2,2) is free, nothing is added for it and the loop goes on *)
 Lemma random_regular_as_is_refuted : exists restarts l r d s G s',
-  gg_guard_regular [l; r; d] = true /\ gg_random_regular_as_is restarts l r d s = GGOk (G, s') /\
+  gg_guard_regular [l; r; d] = true /\ gg_random_regular_as_found restarts l r d s = GGOk (G, s') /\
   exists u, 1 <= u <= l /\ Z.of_nat (length (gio_succs G u)) <> d.
 Proof.
   exists 1%nat, 2, 2, 2, ([0; 0] ++ concat (repeat [2; 2] 12) ++ [2; 3; 3; 3]). eexists. eexists.
